@@ -526,7 +526,9 @@ MODES = ['valid', 'valid', 'high_s', 'crafted_small_s', 'crafted_s_edge', 'half_
          'z_plus_n', 'r_zero', 's_zero', 'r_n', 's_n', 'r_plus_n', 's_plus_n', 'r_max', 's_max', 'rs_random',
          'r_negated', 'wrong_key', 'z_plus_1', 'z_minus_1', 'z_bitflip', 'der_variant', 'der_variant', 'der_variant',
          'der_variant', 'der_variant',
-         'offcurve_pk_comp', 'offcurve_pk_uncomp', 'forged_z0_offcurve', 'pk_alias']
+         'offcurve_pk_comp', 'offcurve_pk_uncomp', 'forged_z0_offcurve', 'pk_alias', 'crafted_sizes', 'crafted_sizes']
+# nonces whose r encodes as a DER integer of 31 / 32 / 33 bytes
+R_SIZE_KS = {31: [246, 1158, 1436, 1661], 32: [5, 7], 33: [2, 3, 4, 6]}
 SMALL_CURVE_XS = [1, 2, 3, 4, 6, 8, 12, 13, 14, 16, 20, 22, 25, 27, 32, 33, 38, 39]
 
 
@@ -543,6 +545,16 @@ def build_verify_case(mode, d, zb, k, aux, aux2, bit, derhow, pkcomp, sigform, p
         z, r, s = _craft(d, k, 1 + aux % 300 if aux % 3 else 1 + aux % 3)
     elif mode == 'crafted_s_edge':
         z, r, s = _craft(d, k, [n // 2, n // 2 + 1, n - 1, n // 2 - 1][aux % 4])
+    elif mode == 'crafted_sizes':
+        # every combination of DER integer lengths (r: 31 / 32 / 33 bytes, s: 30 / 31 / 32 / 33 bytes): valid triples of
+        # plain ECDSA whatever the lengths add up to
+        rl = (31, 32, 33)[aux % 3]
+        sl = (30, 31, 32, 33)[(aux // 3) % 4]
+        k = R_SIZE_KS[rl][(aux // 12) % len(R_SIZE_KS[rl])]
+        lo, hi = {30: (1 << 232, 1 << 239), 31: (1 << 240, 1 << 247), 32: (1 << 248, 1 << 255), 33: (1 << 255, n)}[sl]
+        z, r, s = _craft(d, k, lo + aux2 % (hi - lo))
+        if sigform not in ('der', 'der_hex', 'ints'):
+            sigform = 'der'
     elif mode == 'z_plus_n':
         z = aux2 % ((1 << 256) - n)
         r, s = ec.sign_with_k(z, d, k)
